@@ -85,6 +85,8 @@ def build_state(rng, st):
         first = st['first']
         seg = psi0.extract_segment(first, first + len(st['sites']) - 1)
         return ch, seg
+    if kind == 'infinite' and st.get('charged'):
+        return ch, gen.random_charged_infinite_mps(rng, ch, chi=st.get('chi', 4), steps=st.get('steps', 4))
     if kind == 'infinite':
         return ch, gen.random_infinite_mps(rng, ch, chi=st.get('chi', 3), cplx=st.get('cplx', True))
     raise ValueError(kind)
@@ -193,6 +195,83 @@ def measure(ref, psi_or_env, m, rng):
             got = obj.term_correlation_function_left(tL, tR, m['i_L'], m['j_R'], autoJW=m.get('autoJW', True))
             want = [ref.term([(a, i + iL) for a, i in tL] + [(a, i + m['j_R']) for a, i in tR]) for iL in sorted(m['i_L'], reverse=True)]
         return {'got': cl(got), 'want': cl(want)}
+    if k == 'tlcf_right':
+        # <bra| (sum_a s_a A_a)(i_L) (sum_b t_b B_b)(j) |ket> for j in sorted(j_R): the double sum of dense term values.  Documented
+        # assumption of the function (autoJW): terms with an odd TOTAL number of Jordan-Wigner operators do not contribute.
+        from tenpy.networks.terms import TermList
+        tLs = [[(a, int(b)) for a, b in t] for t in m['terms_L']]
+        tRs = [[(a, int(b)) for a, b in t] for t in m['terms_R']]
+        sL = [complex(*z) for z in m['strength_L']]
+        sR = [complex(*z) for z in m['strength_R']]
+        auto = m.get('autoJW', True)
+        kw = {} if auto else {'autoJW': False, 'opstr': m.get('opstr')}
+        i_L = m['i_L']
+        got = obj.term_list_correlation_function_right(TermList(tLs, sL), TermList(tRs, sR), i_L, m['j_R'], **kw)
+        jR = m['j_R']
+        if jR is None:       # documented default (finite): the right list starts one site right of the left list, up to the end
+            max_L = max(i for t in tLs for _, i in t)
+            min_R = min(i for t in tRs for _, i in t)
+            max_R = max(i for t in tRs for _, i in t)
+            jR = list(range(i_L + max_L + 1 - min_R, L - max(0, max_R)))
+
+        def par(t, off):
+            return sum(1 for a, i in t if chain.docs[(i + off) % L].needs_JW(a)) % 2
+        want, parts = [], []
+        for j in sorted(jR):
+            tot, mx = 0.0, 0.0
+            for ta, sa in zip(tLs, sL):
+                for tb, sb in zip(tRs, sR):
+                    if auto and par(ta, i_L) != par(tb, j):
+                        continue
+                    full = [(a, i + i_L) for a, i in ta] + [(a, i + j) for a, i in tb]
+                    if auto:
+                        v = ref.term(full)
+                    else:     # no Jordan-Wigner strings; opstr on the sites between the terms and as filling inside the lists' windows
+                        lo = min(i for _, i in full)
+                        hi = max(i for _, i in full)
+                        words = [[] for _ in range(hi - lo + 1)]
+                        for a, i in full:
+                            words[i - lo].append(a)
+                        if m.get('opstr'):
+                            la = max(i for _, i in ta) + i_L
+                            fb = min(i for _, i in tb) + j
+                            for r in range(la + 1, fb):
+                                words[r - lo].append(m['opstr'])
+                        v = ref.words(lo, words)
+                    tot += sa * sb * v
+                    mx = max(mx, abs(sa * sb * v))
+            want.append(tot)
+            parts.append(mx)
+        return {'got': cl(got), 'want': cl(want), 'max_part': [float(x) for x in parts]}
+    if k == 'ent':
+        # Schmidt decomposition of the dense state at every bond (finite chain)
+        n_ = m.get('n', 1)
+        lo0, docs, tb, tk = ref.window(0, L - 1)
+        dims = [d.dim for d in docs]
+        v = tk.reshape(-1)
+
+        def ent(p):
+            p = p[p > 1e-30]
+            if n_ == 1:
+                return float(-np.sum(p * np.log(p)))
+            return float(np.log(np.sum(p ** n_)) / (1. - n_))
+        got = list(obj.entanglement_entropy(n=n_))
+        want, spec_got, spec_want = [], [], []
+        spectrum = obj.entanglement_spectrum(by_charge=False)
+        by_q = obj.entanglement_spectrum(by_charge=True)
+        for b in range(1, L):
+            sv = np.linalg.svd(v.reshape(int(np.prod(dims[:b])), -1), compute_uv=False)
+            want.append(ent(sv ** 2))
+            p_got = np.sort(np.exp(-np.asarray(spectrum[b - 1])))[::-1]
+            p_q = np.sort(np.exp(-np.concatenate([np.asarray(x) for _, x in by_q[b - 1]])))[::-1]
+            p_want = np.sort(sv ** 2)[::-1]
+            n_max = max(len(p_got), len(p_want), len(p_q))
+            for arr, dest in ((p_got, spec_got), (p_q, spec_got), (p_want, spec_want), (p_want, spec_want)):
+                dest.extend(list(arr[:n_max]) + [0.0] * (n_max - len(arr)))
+        seg = sorted(m['segment'])
+        got.append(obj.entanglement_entropy_segment2(seg, n=n_))
+        want.append(ent(np.linalg.eigvalsh(ref.rho(seg)).clip(0, None)))
+        return {'got': cl(got + spec_got), 'want': cl(want + spec_want), 'tol': 1e-8}
     if k == 'rho':
         seg = m['segment']
         rho = obj.get_rho_segment(seg)
@@ -242,7 +321,9 @@ def measure(ref, psi_or_env, m, rng):
         return {'got': cl([got_d.get(k_, 0.0) for k_ in keys]), 'want': cl([dist.get(k_, 0.0) for k_ in keys]), 'keys': [list(k_) for k_ in keys],
                 'nonmod': bool(all(mm == 1 for mm in chinfo.mod)),
                 'avg': cl(avg), 'avg_want': cl(np.sum([np.array(k_) * v for k_, v in dist.items()], axis=0) if dist else []),
-                'var': cl(var)}
+                'var': cl(var),
+                'var_want': cl(np.sum([np.array(k_, dtype=float) ** 2 * v for k_, v in dist.items()], axis=0)
+                               - np.sum([np.array(k_) * v for k_, v in dist.items()], axis=0) ** 2 if dist else [])}
     if k == 'sample':
         r = np.random.default_rng(m['seed'])
         first, last = m.get('first', 0), m.get('last', L - 1)
@@ -622,9 +703,26 @@ def run_sample_loop(case):
     return {'B': got_B, 'results': res}
 
 
+MEASURE_PATTERNS = ('expectation_value', 'correlation_function', 'term_', 'overlap', 'rho', 'mutinf', 'probability', 'sample',
+                    'entanglement', 'average_charge', 'charge_variance', 'correlation_length')
+
+
+def run_reflect(case):
+    """public methods of BaseMPSExpectationValue / MPS / MPSEnvironment of the tree under test whose name looks like a measurement"""
+    import inspect
+    import tenpy.networks.mps as M
+    out = {}
+    for cname in ('BaseMPSExpectationValue', 'MPS', 'MPSEnvironment'):
+        c = getattr(M, cname)
+        names = [n for n, f in inspect.getmembers(c, predicate=inspect.isfunction)
+                 if not n.startswith('_') and any(p in n for p in MEASURE_PATTERNS)]
+        out[cname] = sorted(names)
+    return out
+
+
 def main():
     payload = json.load(open(sys.argv[1]))
-    f = {'state': run_state, 'overlap': run_overlap, 'ops_list': run_ops_list, 'window': run_window,
+    f = {'reflect': run_reflect, 'state': run_state, 'overlap': run_overlap, 'ops_list': run_ops_list, 'window': run_window,
          'sample_ops': run_sample_ops, 'tcf_words': run_tcf_words, 'sample_loop': run_sample_loop}[payload['kind']]
     res = []
     for c in payload['cases']:
